@@ -54,6 +54,8 @@ impl FromStr for CardPair {
         }
 
         match (Card::from_str(&value[0..2]), Card::from_str(&value[2..4])) {
+            // a hand is two different cards: "AsAs" is not a pair
+            (Ok(l), Ok(r)) if l == r => Err(Self::Err::InvalidCardStr((&value[2..4]).to_string())),
             (Ok(l), Ok(r)) => Ok(CardPair::new(l, r)),
             (Err(_), _) => Err(Self::Err::InvalidCardStr((&value[0..2]).to_string())),
             (Ok(_), Err(_)) => Err(Self::Err::InvalidCardStr((&value[2..4]).to_string())),
